@@ -257,7 +257,7 @@ def explore(
                             "detail": (type(exc).__name__ + ": " + str(exc))[:500],
                             "trace": [f"{f.filename}:{f.lineno}:{f.name}" for f in list(stack)[-6:]],
                             "where": next((f"{f.filename}:{f.name}" for f in reversed(list(stack))
-                                           if "/repo/" in (f.filename or "")), None),
+                                           if "/src/mwlib/" in (f.filename or "") or "/src/qs/" in (f.filename or "")), None),
                         }
                     elif ret is not None:
                         with ResumedTracing():
